@@ -616,6 +616,11 @@ def classify_while(loop, f, idx):
                         continue
                     ok, why = _helper_progress(helper, enumv)
                     if ok:
+                        # the carried value must be carried by THIS loop too: the variable handed to the helper as `prev` is re-bound, from the slot in which
+                        # the helper returns the updated value, by the same statement
+                        fb = _fed_back(src[0], helper, enumv)
+                        if fb is not None:
+                            return None, "state loop over %s: %s" % (helper.name, fb)
                         return "PROGRESS", "continues only while %s(...) returns %s; %s" % (helper.name, enumv, why)
                     return None, "state loop over %s: %s" % (helper.name, why)
         # compare progress (original GJK)
@@ -661,6 +666,35 @@ def _always_exits(body):
     if isinstance(last, ast.If):
         return _always_exits(last.body) and _always_exits(last.orelse)
     return False
+
+
+def _fed_back(call_stmt, helper, enumv):
+    """None when the caller's statement `..., X, ... = helper(..., X, ...)` re-binds the variable it passes as the helper's carried parameter from the slot in
+    which the helper returns it; else the reason"""
+    body = helper.node.body
+    rets = [st for st in body if isinstance(st, ast.Return) and isinstance(st.value, ast.Tuple) and u(st.value.elts[0]) == enumv]
+    if len(rets) != 1:
+        return None
+    params = helper.params()
+    call = call_stmt.value
+    targets = call_stmt.targets[0].elts
+    if call.keywords or len(call.args) != len(params) or len(targets) != len(rets[0].value.elts):
+        return None
+    for k, e in enumerate(rets[0].value.elts):
+        if isinstance(e, ast.Name) and e.id in params:
+            # a parameter handed back (possibly updated): carried state.  Only the one the progress test reads matters
+            prog_names = set()
+            for st in body:
+                if isinstance(st, ast.If) and ncmp(st.test) is not None and ncmp(st.test)[0] == "<=" and any(isinstance(s_, ast.Return) for s_ in st.body):
+                    prog_names |= {n.id for n in ast.walk(st.test) if isinstance(n, ast.Name)}
+            if e.id not in prog_names:
+                continue
+            arg = call.args[params.index(e.id)]
+            tgt = targets[k]
+            if isinstance(arg, ast.Name) and not (isinstance(tgt, ast.Name) and tgt.id == arg.id):
+                return ("the helper compares against its parameter `%s` and hands the updated value back in slot %d, but the loop passes `%s` and binds that slot to `%s`: "
+                        "`%s` never changes, the relative-progress exit compares with a constant and cannot fire" % (e.id, k, arg.id, u(tgt), arg.id))
+    return None
 
 
 def _helper_progress(helper, enumv):
